@@ -70,11 +70,19 @@ void gen_world(Rng& r, Plan& p, GenOpts const& o)
 
     p.eseed = 1 + r.below(1000000);
     p.dims = 1 + r.below(3);
+    bool const high = o.allow_high_dims && p.integ != MULTI && r.chance(0.04);
 
     static u64 const bins_pick[] = {2, 2, 3, 4, 5, 8, 16, 32};
     p.bins = r.chance(0.8) ? r.pick(bins_pick) : 2 + r.below(62);
     if (r.chance(0.03)) p.bins = 128;
     p.chan = r.chance(0.9) ? 1 + r.below(6) : 7 + r.below(34);
+    if (high)
+    {
+        // many dimensions (the exponent range of products over dimensions), few calls
+        static u64 const hd[] = {10, 19, 20, 24, 40, 150};
+        p.dims = r.pick(hd);
+        if (r.chance(0.7)) p.bins = 128;
+    }
 
     u64 const n = 1 + r.below(static_cast<u64>(o.max_iters));
     static u64 const calls_pick[] = {1, 2, 3, 5, 8, 17, 33, 64, 100};
@@ -84,6 +92,7 @@ void gen_world(Rng& r, Plan& p, GenOpts const& o)
         u64 c = r.chance(0.5) ? r.pick(calls_pick) : 1 + r.below(o.max_calls);
         if (o.allow_zero_calls && r.chance(0.04)) c = 0;
         if (c > o.max_calls) c = o.max_calls;
+        if (high && c > 40) c = 1 + c % 40;
         p.calls.push_back(c);
     }
 
